@@ -268,3 +268,12 @@ def run_case(case, ctx):
         O_ = np.asarray(ctx.call(name + ":omitted", fn, sts, **extra))
         ctx.check(np.array_equal(Z, O_), "zero_equals_omitted:" + name,
                   lambda: "%s: MRTS=0 %r, omitted %r" % (name, Z.tolist(), O_.tolist()))
+
+
+def siblings(case):
+    """run right after the case in the same process (runner._run_one)"""
+    sibs = [ps.sibling_wider_edges(case)]
+    extra = ps.sibling_same_count_and_sum(case)
+    if extra is not None:
+        sibs.append(extra)
+    return sibs
